@@ -10,7 +10,7 @@ the text of one property and a private worktree (nothing from /verif):
 (what it breaks, what it needs to manifest, what I ran to confirm it, which
 rules fire). Every change compiles and passes the 95-test suite; I confirmed
 that and both demo outcomes myself with `selftest/seedcheck.py` /
-`selftest/archive_seed.py`. Three rounds: `-1/-2` (rounds 1 and 2), `-3/-4` (round 3).
+`selftest/archive_seed.py`. Four rounds: `-1/-2` (rounds 1 and 2), `-3/-4` (round 3), `-5/-6` (round 4).
 
 `first run` is the verdict of the checks as they were when the change
 arrived (rule ids of the property's own check and of sibling checks);
